@@ -365,6 +365,11 @@ async fn get_oldest_segments(topic: &Topic) -> Vec<SegmentsToHandle> {
     let mut oldest_segments = Vec::new();
     for partition in topic.partitions.values() {
         let partition = partition.read().await;
+        // The only segment of a partition holds its newest messages, it's never removed to make room.
+        if partition.get_segments().len() < 2 {
+            continue;
+        }
+
         if let Some(segment) = partition.get_segments().first() {
             if !segment.is_closed {
                 continue;
